@@ -136,7 +136,16 @@ def audit(prop_id: str) -> dict:
                 hits.append(f'{f.relative_to(LEAN)}:{i}: {line.strip()[:80]}')
     if bad or hits:
         raise ToolFailure(f'proof audit failed: bad axioms {bad}, forbidden tokens {hits}')
+    extra = {}
+    if tier() == 'thorough':
+        # the toolchain's independent re-checker of the compiled .olean of the property's theorem module (and,
+        # transitively, of everything it imports)
+        ok, msg = leanchecker([f'MLPE.Props.{prop_id}'])
+        if not ok:
+            raise ToolFailure('leanchecker rejected MLPE.Props.%s: %s' % (prop_id, msg))
+        extra['leanchecker'] = f'accepted MLPE.Props.{prop_id}'
     return {
+        **extra,
         'obligations': len(thms), 'discharged': len(res),
         'theorems': res,
         'checker_cmd': f'cd lean && lake build && lake env lean <(#print axioms of every theorem in MLPE/Props/{prop_id}.lean)',
